@@ -836,6 +836,18 @@ pub async fn process_multiple_changes(
                             }
                         })?;
                     }
+                    // chunks we buffered for versions that turned out to be empty
+                    // are obsolete, schedule their removal
+                    if check_buffered_meta_to_clear(&tx, change.actor_id, versions.clone())
+                        .map_err(|e| ChangeError::Rusqlite {
+                            source: e,
+                            actor_id: Some(change.actor_id),
+                            version: Some(end),
+                        })?
+                        && let Err(e) = agent.tx_clear_buf().try_send((change.actor_id, versions))
+                    {
+                        error!("could not schedule buffered meta clear: {e}");
+                    }
                     KnownDbVersion::Cleared
                 } else {
                     if let Some(seqs) = change.seqs()
